@@ -124,6 +124,22 @@ func (p *Prog) Run(bs map[string]interface{}) Outcome {
 				nm[op.Keys[0]] = jsongen.Copy(op.V)
 				cur[op.K] = nm
 			}
+		case "matchStore":
+			// the extended interpreter's _.match helper: its result (a
+			// list of bindings, or null) is kept in the bindings
+			bss, err := match.Match(jsongen.Copy(op.V), jsongen.Copy(cur[op.Keys[0]]), match.NewBindings())
+			if err != nil {
+				return Outcome{Kind: "fail", Why: "match error"}
+			}
+			if bss == nil {
+				cur[op.K] = nil
+			} else {
+				list := []interface{}{}
+				for _, b := range bss {
+					list = append(list, jsongen.CopyMap(map[string]interface{}(b)))
+				}
+				cur[op.K] = list
+			}
 		case "emit":
 			emitted = append(emitted, jsongen.Copy(op.V))
 		case "emitOf":
@@ -214,6 +230,8 @@ func (p *Prog) ES() string {
 			fmt.Fprintf(&sb, "if (bs[%s] !== null && typeof bs[%s] === 'object' && !Array.isArray(bs[%s])) { bs[%s][%s] = %s; }\n", k, k, k, k, js(op.Keys[0]), js(op.V))
 		case "elemSet":
 			fmt.Fprintf(&sb, "if (Array.isArray(bs[%s]) && bs[%s].length > 0 && bs[%s][0] !== null && typeof bs[%s][0] === 'object' && !Array.isArray(bs[%s][0])) { bs[%s][0][%s] = %s; }\n", k, k, k, k, k, k, js(op.Keys[0]), js(op.V))
+		case "matchStore":
+			fmt.Fprintf(&sb, "bs[%s] = _.match(%s, (bs[%s] === undefined ? null : bs[%s]), {});\n", k, js(op.V), js(op.Keys[0]), js(op.Keys[0]))
 		case "emit":
 			fmt.Fprintf(&sb, "_.out(%s);\n", js(op.V))
 		case "emitOf":
@@ -247,10 +265,14 @@ func (p *Prog) ES() string {
 type NativeMode int
 
 const (
-	NativeCopy    NativeMode = iota // works on a copy
-	NativeInPlace                   // extends / returns the given map (top level only), like the repository's own native actions
-	NativeScribble                  // writes a top-level key into the map it is given, whatever it then returns (a careless native guard)
+	NativeCopy     NativeMode = iota // works on a copy
+	NativeInPlace                    // extends / returns the given map (top level only), like the repository's own native actions
+	NativeScribble                   // writes a top-level key into the map it is given, whatever it then returns (a careless native guard)
 )
+
+// CheckCycles makes every native rendering refuse bindings that hold a
+// self-containing value (set by checks that feed such values in).
+var CheckCycles bool
 
 // OnNativeExec, when set, is told about every execution of a native
 // rendering: the program, and how it ended ("ok", "null", "fail").  Checks
@@ -260,6 +282,11 @@ var OnNativeExec func(p *Prog, kind string)
 // Native renders the program as a core.Action backed by the model.
 func (p *Prog) Native(mode NativeMode) core.Action {
 	return &core.FuncAction{F: func(ctx context.Context, bs match.Bindings, props core.StepProps) (*core.Execution, error) {
+		if CheckCycles && jsongen.Cyclic(map[string]interface{}(bs)) {
+			// the model copies values; a native action is free to
+			// refuse input it cannot handle
+			return nil, errors.New("native action failed: the bindings contain a value that contains itself")
+		}
 		out := p.Run(map[string]interface{}(bs))
 		if OnNativeExec != nil {
 			OnNativeExec(p, out.Kind)
@@ -304,6 +331,15 @@ func (p *Prog) Native(mode NativeMode) core.Action {
 		}
 		return exe, nil
 	}}
+}
+
+// Interp names the interpreter the ECMAScript rendering needs: the
+// plain one, or the extended one for programs that use its helpers.
+func (p *Prog) Interp() string {
+	if p.Has("matchStore") {
+		return "ecmascript-ext"
+	}
+	return "ecmascript"
 }
 
 // Fails reports whether the program can fail / reject regardless of input.
